@@ -227,3 +227,8 @@ def evaluate(case):
             res.label('sweep:mechanism-%d' % mech)
     res.sample = dict(outcome=trace.outcome, executions=res.executions)
     return res
+
+
+def sweeps(tier):
+    # deterministic part: flat schedulers of 9 .. 1025 members (just above powers of two)
+    return [S.ladder_sweep(['critical', 'timeout'])]
